@@ -192,6 +192,76 @@ def cli_gather_case(args):
     return bad
 
 
+def cli_multigather_case(args):
+    """one thorough-tier case of C07 through `sourmash multigather` (prefetch counters + the ident / noident split
+    done by the command itself): the CSV it writes for the query against the in-process observations of the same
+    case, and the `.unassigned` signature against what gather left plus the never-identified hashes (downsampled to
+    the final comparison scaled).
+    args = (case, impl, pkg) -> list of (signature, message, data)"""
+    case, impl, pkg = args
+    bad = []
+    gd = next((l for l in case if l.startswith("gd ")), None)
+    if gd is None:
+        return bad
+    k = case.index(gd)
+    if not impl[k].startswith("ok"):
+        return bad
+    w = gd.split()
+    thr, ign = int(w[2]), int(w[3])
+    cs = w[6:]
+    if not all(c.startswith("c") for c in cs) or w[4] == "-":
+        return bad          # multigather = prefetch counters + ident / noident
+    d, qpath, paths = write_files(case, pkg)
+    if d is None:
+        return [("C07:cli:cannot-write-files", str(paths), {"case": case})]
+    try:
+        dbs = [paths[int(c[1:])] for c in cs if int(c[1:]) in paths]
+        if not dbs:
+            return bad
+        outdir = os.path.join(d, "mg")
+        os.makedirs(outdir, exist_ok=True)
+        a = ["multigather", "--query", qpath, "--db"] + dbs + ["--threshold-bp", str(thr), "--output-dir", outdir, "-q"]
+        if ign:
+            a.append("--ignore-abundance")
+        rc, so, se = run_cli(pkg, a, d)
+        # output base = basename of the signature's `filename` field, or its md5 when that is unset
+        found = [f[:-4] for f in os.listdir(outdir) if f.endswith(".csv")]
+        base = os.path.join(outdir, found[0]) if len(found) == 1 else os.path.join(outdir, os.path.basename(qpath))
+        rows = [gather_row_line(r) for r in read_csv(base + ".csv")]
+        exp = [api_row_line(o) for o in impl[k + 1:] if o.startswith("ok rank=")]
+        crashed = any(o.startswith("err") for o in impl[k + 1:])
+        if rc != 0 and not crashed:
+            bad.append(("C07:cli:multigather-exit-%d" % rc, se[-300:], {"case": case, "args": a}))
+        elif not crashed:
+            if len(rows) != len(exp) or any(not same_row(x, y) for x, y in zip(rows, exp)):
+                i = next((j for j, (x, y) in enumerate(zip(rows, exp)) if not same_row(x, y)), min(len(rows), len(exp)))
+                bad.append(("C07:cli:multigather-csv-differs-from-api",
+                            f"round {i}: cli={rows[i][:200] if i < len(rows) else '<none>'} api={exp[i][:200] if i < len(exp) else '<none>'}",
+                            {"case": case, "args": a, "cli": rows, "api": exp}))
+            un = base + ".unassigned.sig"
+            if exp and os.path.exists(un):
+                try:
+                    got = set(json.load(open(un))[0]["signatures"][0]["mins"])
+                except Exception:           # noqa: BLE001
+                    got = None
+                last = [o for o in impl[k:] if o.startswith(("ok", "stop"))]
+                left = set(G.ints(G.parse_kv(last[-1])["q"])) if last else set()
+                sp = next((o for l, o in zip(case, impl) if l.startswith("split ")), None)
+                noid = set(G.ints(G.parse_kv(sp)["noident"])) if sp else set()
+                scs = [int(G.parse_kv(o)["sc"]) for o in impl[k + 1:] if o.startswith("ok rank=")]
+                noid = G.down(noid, max(scs))
+                if got is not None and got != (left | noid):
+                    bad.append(("C07:cli:multigather-unassigned-differs",
+                                f".unassigned.sig holds {len(got)} hashes, expected {len(left | noid)}",
+                                {"case": case, "args": a}))
+            elif exp and not os.path.exists(un):
+                bad.append(("C07:cli:multigather-unassigned-missing", "no .unassigned.sig although matches were found",
+                            {"case": case, "args": a}))
+    finally:
+        shutil.rmtree(d, ignore_errors=True)
+    return bad
+
+
 def _bits(v):
     import struct
     return struct.unpack("<Q", struct.pack("<d", float(v)))[0]
